@@ -1,15 +1,18 @@
 from ..fam import list as listfam
 
 
+from ..fam import history
+
+
 def cases(tier):
-    return listfam.cases(tier, 'func')
+    return history.cases(tier, 2) + listfam.cases(tier, 'func')
 
 
 def meta(tier):
     i = listfam.info(tier)
     return {'level': 'model_checking', 'bounds': i['bounds'],
             'outside': ['lists longer than the bound', 'element sizes not listed', 'qgrow_addstrf and the *_debug printers (formatting / stdio output)',
-                        'histories are covered through the inductive argument only: base (constructors) + one step from every well-formed state within the bound'],
+                        'three-call histories through the public API (every triple of operation kinds, symbolic arguments) in addition to the inductive argument: base (constructors) + one step from every well-formed state within the bound'],
             'stubs': i['stubs'],
             'assumptions': [i['prestate'], 'malloc does not fail here (C15 covers failure)', 'single logical thread (C13 covers interleavings)'],
             'explanation': 'Inductive step by bounded symbolic execution of the real qlist.c / qqueue.c / qstack.c / qgrow.c: pre-state = every well-formed doubly linked list with a fixed node count '
